@@ -53,8 +53,8 @@ func init() {
 	register("C11", "G-size G-fee G-pred P-est T-tmpl G-sum", nil, rule{name: "G-size", run: ruleGSize}, rule{name: "G-fee", run: ruleGFee}, rule{name: "G-pred", run: ruleGPred}, rule{name: "P-est", run: rulePEst}, rule{name: "G-sum", run: ruleGSum}, rule{name: "T-tmpl", run: ruleTTmplScripts})
 	register("C10", "G-chg S-chg O-pure G-sum G-size T-vi", nil, rule{name: "G-chg", run: ruleGChg}, rule{name: "S-chg", run: ruleSChgWrappers}, rule{name: "G-sum", run: ruleGSum}, rule{name: "G-size", run: ruleGSize}, rule{name: "P-est", run: rulePEst}, rule{name: "T-vi", run: ruleTVi})
 	register("C06", "T-enc G-legacy S-sub S-enc S-false S-nullf", nil, rule{name: "T-enc", run: ruleTEnc}, rule{name: "G-legacy", run: ruleGLegacy}, rule{name: "S-sub", run: ruleSSub}, rule{name: "S-enc", run: ruleSEncOrder}, rule{name: "S-multi", run: ruleSMulti}, rule{name: "S-reset", run: ruleSReset})
-	register("C04", "S-flag W-unlock S-fill S-digest S-apply T-shf", nil, rule{name: "S-flag", run: ruleSFlag}, rule{name: "S-digest", run: ruleSDigest}, rule{name: "S-apply", run: ruleSApply}, rule{name: "T-shf", run: ruleTShf}, rule{name: "S-sub", run: ruleSSub}, rule{name: "T-enc", run: ruleTEnc})
+	register("C04", "S-flag W-unlock S-fill S-digest S-apply T-shf", nil, rule{name: "S-flag", run: ruleSFlag}, rule{name: "S-digest", run: ruleSDigest}, rule{name: "S-apply", run: ruleSApply}, rule{name: "T-shf", run: ruleTShf}, rule{name: "S-sub", run: ruleSSub}, rule{name: "T-enc", run: ruleTEnc}, rule{name: "G-clone", run: ruleGClone})
 	register("C20", "G-idx G-fifo S-fee W-insc O-insc T-rt", nil, rule{name: "G-idx", run: ruleGIdx}, rule{name: "S-fee", run: ruleSFeeAfter}, rule{name: "W-insc", run: ruleWInsc}, rule{name: "O-insc", run: ruleOInsc}, rule{name: "T-rt", run: ruleTRt})
-	register("C02", "W-sig", nil, rule{name: "W-sig", run: ruleWSig}, rule{name: "S-err", run: func(c *Ctx) { ruleSErrPreimage(c, "CalcInputPreimage") }}, rule{name: "O-pure", run: ruleOPureSighash})
-	register("C03", "W-leg", nil, rule{name: "W-leg", run: ruleWLeg}, rule{name: "G-eff", run: ruleGEffLegacy}, rule{name: "S-err", run: func(c *Ctx) { ruleSErrPreimage(c, "CalcInputPreimageLegacy") }}, rule{name: "O-pure", run: ruleOPureSighash})
+	register("C02", "W-sig", nil, rule{name: "W-sig", run: ruleWSig}, rule{name: "S-err", run: func(c *Ctx) { ruleSErrPreimage(c, "CalcInputPreimage") }}, rule{name: "O-pure", run: ruleOPureSighash}, rule{name: "G-clone", run: ruleGClone})
+	register("C03", "W-leg", nil, rule{name: "W-leg", run: ruleWLeg}, rule{name: "G-eff", run: ruleGEffLegacy}, rule{name: "S-err", run: func(c *Ctx) { ruleSErrPreimage(c, "CalcInputPreimageLegacy") }}, rule{name: "O-pure", run: ruleOPureSighash}, rule{name: "G-clone", run: ruleGClone})
 }
